@@ -573,7 +573,7 @@ func (e *Env) index(n *EIndex) (*SVal, error) {
 }
 
 var builtinSpecFuncs = map[string]bool{"len": true, "cap": true, "old": true, "be16": true, "be32": true, "be64": true, "bytesEq": true,
-	"crc32c": true, "dom": true, "isnil": true, "arrOf": true, "offOf": true, "sameArr": true, "typeIs": true, "allocated": true, "fresh": true, "update": true, "str": true, "boxed": true}
+	"crc32c": true, "dom": true, "isnil": true, "arrOf": true, "offOf": true, "sameArr": true, "typeIs": true, "allocated": true, "fresh": true, "update": true, "str": true, "boxed": true, "unbox": true, "isa": true, "apply": true}
 
 func (e *Env) call(n *ECall) (*SVal, error) {
 	c := e.c
@@ -725,6 +725,61 @@ func (e *Env) call(n *ECall) (*SVal, error) {
 		}
 		f := c.declFun("mkiface:"+typeShort(a.Ty.Go), []Sort{a.T.Sort}, SInt)
 		return &SVal{app(f, SInt, a.T), goT(types.NewInterfaceType(nil, nil))}, nil
+	case "unbox":
+		// unbox(x, "T"): the value of dynamic type T held by interface value x (what x.(T) yields)
+		a, err := e.expr(n.Args[0])
+		if err != nil {
+			return nil, err
+		}
+		ts, ok := n.Args[1].(*EStr)
+		if !ok {
+			return nil, e.errf("unbox(x, \"T\")")
+		}
+		ty, err := e.resolveType(ts.V)
+		if err != nil {
+			return nil, err
+		}
+		return &SVal{e.t.payload(a.T, c.sortOf(ty.Go)), ty}, nil
+	case "isa":
+		// isa(x, "T"): interface value x is non-nil and holds a T
+		a, err := e.expr(n.Args[0])
+		if err != nil {
+			return nil, err
+		}
+		ts, ok := n.Args[1].(*EStr)
+		if !ok {
+			return nil, e.errf("isa(x, \"T\")")
+		}
+		ty, err := e.resolveType(ts.V)
+		if err != nil {
+			return nil, err
+		}
+		return &SVal{and(not(eq(a.T, tInt(0))), eq(e.t.dynType(a.T), e.t.tagFact(ty.Go))), tyBool}, nil
+	case "apply":
+		// apply(f, x...): the result of calling the function value f (closure schema)
+		f, err := e.expr(n.Args[0])
+		if err != nil {
+			return nil, err
+		}
+		sig, ok := f.Ty.Go.Underlying().(*types.Signature)
+		if !ok || sig.Results().Len() != 1 {
+			return nil, e.errf("apply needs a function value with one result")
+		}
+		var ats []Term
+		var ss []Sort
+		ats = append(ats, f.T)
+		ss = append(ss, SInt)
+		for _, a := range n.Args[1:] {
+			v, err := e.expr(a)
+			if err != nil {
+				return nil, err
+			}
+			ats = append(ats, v.T)
+			ss = append(ss, v.T.Sort)
+		}
+		rs := c.sortOf(sig.Results().At(0).Type())
+		fn := c.declFun(applyName(ss[1:], rs), ss, rs)
+		return &SVal{app(fn, rs, ats...), goT(sig.Results().At(0).Type())}, nil
 	case "str":
 		// str(b): the string made of the bytes of slice b
 		a, err := e.expr(n.Args[0])
@@ -1299,4 +1354,12 @@ func mentionsVar(e Expr, name string) bool {
 		}
 	})
 	return m
+}
+
+func applyName(args []Sort, res Sort) string {
+	var as []string
+	for _, a := range args {
+		as = append(as, string(a))
+	}
+	return "apply:" + strings.Join(as, ",") + "->" + string(res)
 }
